@@ -406,6 +406,9 @@ class Engine:
             if isinstance(v.ty, TRef):
                 return V(ty, v.t)
         if isinstance(v.ty, TOpt) and (v.ty.inner == ty or (isinstance(v.ty.inner, TRef) and isinstance(ty, TRef))):
+            if isinstance(ty, TRef) and ty.nullable:
+                # Optional[ref] as a nullable reference: absent is None
+                return V(ty, z3.If(v.ty.is_some(v.t), v.ty.val(v.t), null()))
             # unwrap: only when the path condition proves the value is not None
             if st is not None and not self.spec_mode and not self.entails(st, v.ty.is_some(v.t)):
                 raise Unsupported(f'Optional value used as {ty} on a path where it may be None')
@@ -509,7 +512,14 @@ class Engine:
             return z3.BoolVal(False)
         if isinstance(a.ty, TOpt) and not isinstance(b.ty, TOpt):
             if a.ty.inner == b.ty or (isinstance(a.ty.inner, TRef) and isinstance(b.ty, TRef)):
-                return z3.And(a.ty.is_some(a.t), a.ty.val(a.t) == b.t)
+                same = z3.And(a.ty.is_some(a.t), a.ty.val(a.t) == b.t)
+                if isinstance(b.ty, TRef) and b.ty.nullable:
+                    # a nullable reference holding None equals an absent Optional (both are Python's None); a present value of
+                    # a non-nullable reference type is not None (type invariant of the container)
+                    if isinstance(a.ty.inner, TRef) and not a.ty.inner.nullable:
+                        same = z3.And(same, b.t != null())
+                    return z3.Or(same, z3.And(a.ty.is_none(a.t), b.t == null()))
+                return same
             return z3.BoolVal(False)
         if isinstance(b.ty, TOpt) and not isinstance(a.ty, TOpt):
             return self.eq(b, a)
